@@ -367,6 +367,7 @@ def contract_call(X, ins, key, c, argv, iface_sig=None):
     env = bind_args(X, params, argv)
     pre = X.heap.copy()
     ev = SpecEval(V, pkg, env, pre, old=pre)
+    ev.in_callee = True
     short = key
     try:
         for k, (lab, ast, txt) in enumerate(c['requires']):
@@ -424,6 +425,7 @@ def contract_call(X, ins, key, c, argv, iface_sig=None):
             if rn and rn != '_':
                 renv[rn] = sv
         ev2 = SpecEval(V, pkg, renv, post, old=pre, results=rsv)
+        ev2.in_callee = True
         for k, (lab, ast, txt) in enumerate(c['ensures']):
             X.hyp(ev2.boolean(ast))
         if 'noreturn' in c['flags']:
